@@ -112,15 +112,34 @@ def gen_op(rng, n, shapes, d, kind=None):
 def gen_case(rng, depth=None, kind=None):
     n = depth or rng.choice([2, 2, 3, 3, 3, 4])
     shapes = [rng.randint(1, 4 if n > 2 else 5) for _ in range(n)]
-    d = rng.choice([0, 0, 0, 0, 3])
+    d = rng.choice([0, 0, 0, 0, 3, U.NONE_D])      # NONE_D: the implementation gets default=None (nothing is empty)
     pa = rng.choice([0.0, 0.15, 0.3, 0.45, 0.6, 0.6, 0.95]) if n < 4 else rng.choice([0.3, 0.45, 0.6, 0.7, 0.95])
-    t = U.gen_fiber(rng, n, shapes, d, p_absent=pa)
+    vals = (0, 9) if d == U.NONE_D else (1, 9)       # with default None a stored 0 is an ordinary value
+    pz = 0.0 if d == U.NONE_D else None               # None is not a value one stores
+    t = U.gen_fiber(rng, n, shapes, d, p_absent=pa, p_zero=pz, vals=vals)
     if U.tree_size(t) > 70:
-        t = U.gen_fiber(rng, n, shapes, d, p_absent=0.7)
+        t = U.gen_fiber(rng, n, shapes, d, p_absent=0.7, p_zero=pz, vals=vals)
     base, muts = canon_and_muts(rng, t, n, shapes, d)
-    build = "unc" if (d == 0 and rng.random() < 0.4) else "fiber"
-    return {"tree": t, "base": base, "muts": muts, "build": build, "d": d, "shape": shapes,
-            "op": gen_op(rng, n, shapes, d, kind)}
+    x = rng.random()
+    build = "unc" if (d == 0 and x < 0.3) else "grow" if x < 0.5 else "graft" if x < 0.7 else "fiber"
+    if build == "grow" and d == U.NONE_D:
+        build = "fiber"        # getPayloadRef cannot create a payload when there is no default value
+    op = gen_op(rng, n, shapes, d, kind)
+    case = {"tree": t, "base": base, "muts": muts, "build": build, "d": d, "shape": shapes, "op": op}
+    return fit_build(case, rng)
+
+
+def fit_build(case, rng):
+    """history-specific fields; a tensor without a declared shape cannot be flattened with linear
+    coordinates (flattenRanks needs the authoritative shape), so that combination gets the tuple style"""
+    if case["build"] == "grow":
+        npts = len(U.content(case["base"], None))
+        case["stage1"] = rng.randint(0, npts)
+        if case["op"][0] == "flatten" and case["op"][3] == "linear":
+            case["op"] = case["op"][:3] + [rng.choice(["tuple", "pair"])]
+    if case["build"] == "graft":
+        case["graft"] = rng.choice(["copy", "copy", "slice", "mixed"])
+    return case
 
 
 def streams(tier, rng):
@@ -148,6 +167,8 @@ def streams(tier, rng):
                     continue
                 c = copy.deepcopy(c0)
                 c["op"] = o
+                if c["build"] == "grow" and o[0] == "flatten" and o[3] == "linear":
+                    c["build"] = "fiber"
                 cases.append(c)
             for dep in range(depth):
                 c = copy.deepcopy(c0)
@@ -256,20 +277,70 @@ def dense(t, depth, shapes):
     return [dense(m.get(i, []), depth - 1, shapes[1:]) for i in range(shapes[0])]
 
 
+def _points(t, prefix=()):
+    out = []
+    for c, s in t:
+        if isinstance(s, int):
+            out.append((prefix + (c,), s))
+        else:
+            out += _points(s, prefix + (c,))
+    return out
+
+
 def build(case):
-    """the operand: a canonical tensor, then the real mutations that leave explicit defaults and
-    empty sub-fibers behind"""
+    """the operand: a canonical tensor built along one of four histories, then the real mutations that
+    leave explicit defaults and empty sub-fibers behind.
+      fiber  Tensor.fromFiber of Fiber objects (shared builder, representation modes)
+      unc    Tensor.fromUncompressed
+      grow   a tensor WITHOUT a declared shape grown by point insertion (getPayloadRef / <<=) in two
+             stages with read-only queries (getShape ...) in between; the second stage stores the points
+             with the larger coordinates, i.e. beyond the extent seen at the read
+      graft  the sub-trees under the root are put in place with Fiber.append of fibers that already
+             belong to another tensor (slices of a donor tensor, or deep copies of them)"""
+    import copy
     from fibertree import Tensor
     n = len(case["shape"])
     ids = U.RANK_NAMES[:n]
-    if case["build"] == "unc":
+    d = case["d"]
+    kind = case["build"]
+    if kind == "unc":
         T = Tensor.fromUncompressed(ids, dense(case["base"], n, case["shape"]), shape=list(case["shape"]))
+    elif kind == "grow":
+        T = Tensor(rank_ids=ids)
+        if d != 0:
+            T.setDefault(U.dress(d))
+        pts = sorted(_points(case["base"]), key=lambda pv: (max(pv[0]), pv[0]))
+        k = case.get("stage1", len(pts) // 2)
+        for i, (cs, v) in enumerate(pts):
+            if i == k:
+                T.getShape()
+                U.touch(T.getRoot())
+                for r in T.ranks:
+                    for f in r.getFibers():
+                        U.touch(f)
+                T.getShape()
+            ref = T.getRoot().getPayloadRef(*cs)
+            ref <<= U.dress(v)
+        if k >= len(pts):
+            T.getShape()
+    elif kind == "graft":
+        A = U.build_tensor(case["base"], n, case["shape"], d)
+        T = Tensor(rank_ids=ids, shape=list(case["shape"]))
+        if d != 0:
+            T.setDefault(U.dress(d))
+        root = T.getRoot()
+        for i, (c, _) in enumerate(case["base"]):
+            sub = A.getRoot().getPayload(c)
+            how = case.get("graft", "copy")
+            if how == "copy" or (how == "mixed" and i % 2 == 0):
+                sub = copy.deepcopy(sub)
+            root.append(c, sub)
     else:
-        T = U.build_tensor(case["base"], n, case["shape"], case["d"])
+        T = U.build_tensor(case["base"], n, case["shape"], d)
     for kind, p in case["muts"]:
         if kind == "zero":
             ref = T.getPayloadRef(*p)
-            ref <<= case["d"]
+            ref <<= U.dress(d)
         else:
             T.getPayload(*p).clear()
     return T
@@ -300,6 +371,7 @@ def apply_op(T, o):
 
 
 def run_impl(case):
+    U.MODE["none_default"] = case["d"] == U.NONE_D
     T = build(case)
     before = snap(T.getRoot())
     if before != case["tree"]:
@@ -325,7 +397,10 @@ def _rebase(c, rng=None):
     rng = rng or random.Random(1)
     n = len(c["shape"])
     c["base"], c["muts"] = canon_and_muts(rng, c["tree"], n, c["shape"], c["d"])
-    c["build"] = "fiber"
+    if c.get("build") not in ("grow", "graft"):
+        c["build"] = "fiber"
+    if c["build"] == "grow":
+        c["stage1"] = len(U.content(c["base"], None)) // 2
     return c
 
 
